@@ -189,6 +189,8 @@ theorem loadMapElems_spec (pfx : String) (fields : List LeafField) (es : List (V
       | bin b => simpa [loadMapElems, isStrKey] using ⟨ih1, ih2, ih3⟩
       | arr b => simpa [loadMapElems, isStrKey] using ⟨ih1, ih2, ih3⟩
       | map b => simpa [loadMapElems, isStrKey] using ⟨ih1, ih2, ih3⟩
+      | ext a b => simpa [loadMapElems, isStrKey] using ⟨ih1, ih2, ih3⟩
+      | ts a b => simpa [loadMapElems, isStrKey] using ⟨ih1, ih2, ih3⟩
     | arr l => simpa [loadMapElems, isStrKey] using ⟨ih1, ih2, ih3⟩
     | map l => simpa [loadMapElems, isStrKey] using ⟨ih1, ih2, ih3⟩
 
